@@ -1659,3 +1659,11 @@ def _quick_structures_for_faults(self, tier, label):
 for _c in list(globals().values()):
     if isinstance(_c, type) and issubclass(_c, Contract) and _c.__module__ == __name__ and "mutant_structures" not in _c.__dict__:
         _c.mutant_structures = _quick_structures_for_faults
+
+
+def _sample_fault_structures(self, tier, label):
+    # the rank-3 two-dimensional case costs minutes under a faulty (non-cancelling) body
+    return [(l, st) for l, st in self.structures("quick") if not l.endswith("rank=3")]
+
+
+SampleAllExact.mutant_structures = _sample_fault_structures
